@@ -408,3 +408,27 @@ def ref_comp(p: Pep, ion_type: str = 'p', use_isotope_on_mods: bool = False) -> 
         else:
             delta += mod.mass(True)
     return comp, delta
+
+
+# ---------------------------------------------------------------------------------------------
+# JSON round trip of the spec (replay files)
+# ---------------------------------------------------------------------------------------------
+import dataclasses as _dc
+
+
+def to_json(p: Pep) -> dict:
+    return _dc.asdict(p)
+
+
+def _m(d) -> M:
+    return M(**d)
+
+
+def from_json(d: dict) -> Pep:
+    return Pep(
+        seq=d['seq'], labile=[_m(x) for x in d['labile']],
+        static=[Rule([_m(x) for x in r['mods']], list(r['targets'])) for r in d['static']],
+        isotope=list(d['isotope']), unknown=[_m(x) for x in d['unknown']], nterm=[_m(x) for x in d['nterm']],
+        cterm=[_m(x) for x in d['cterm']], res={int(k): [_m(x) for x in v] for k, v in d['res'].items()},
+        intervals=[Iv(i['start'], i['end'], i['ambiguous'], [_m(x) for x in i['mods']]) for i in d['intervals']],
+        charge=d['charge'], adducts=d['adducts'], charge_text=d.get('charge_text'), start_order=d.get('start_order'))
